@@ -12,6 +12,14 @@ import (
 
 var sfoMagic = [...]byte{0, 'P', 'S', 'F'}
 
+// Numbers found in a file are not to be trusted: a real param.sfo has some tens of entries, names like "TITLE_ID" and
+// values of up to some KiB. Without limits a crafted (sparse) file makes a request read gigabytes or spin for hours.
+const (
+	sfoMaxEntries  = 4096
+	sfoMaxKeyLen   = 256
+	sfoMaxValueLen = 64 << 10
+)
+
 type sfoHeader struct {
 	Magic             [4]byte
 	Version           [4]byte
@@ -41,6 +49,10 @@ func sfoField(f afero.File, field string) (string, error) {
 		return "", fmt.Errorf("bad sfo magic: %s", hdr.Magic)
 	}
 
+	if hdr.TableEntriesCount > sfoMaxEntries {
+		return "", fmt.Errorf("too many sfo entries (%d)", hdr.TableEntriesCount)
+	}
+
 	var (
 		idxEntry *sfoIndexTableEntry
 		br       bufio.Reader
@@ -66,7 +78,7 @@ func sfoField(f afero.File, field string) (string, error) {
 			return "", fmt.Errorf("failed to seek to key at %d: %w", keyOff, err)
 		}
 
-		br.Reset(f)
+		br.Reset(io.LimitReader(f, sfoMaxKeyLen))
 		key, err := br.ReadBytes(0)
 		if err != nil {
 			return "", fmt.Errorf("failed to read key at %d: %w", keyOff, err)
@@ -87,6 +99,10 @@ func sfoField(f afero.File, field string) (string, error) {
 	_, err := f.Seek(off, io.SeekStart)
 	if err != nil {
 		return "", fmt.Errorf("failed to seek to key at %d: %w", off, err)
+	}
+
+	if idxEntry.DataLen == 0 || idxEntry.DataLen > sfoMaxValueLen {
+		return "", fmt.Errorf("unexpected length of value (%d)", idxEntry.DataLen)
 	}
 
 	var ret strings.Builder
